@@ -89,8 +89,13 @@ def one_year(year: int, probes: list, api_probes: int) -> dict:
         for tod in probes[:api_probes]:
             t = tod_to_time(tod)
             for kind in ('time', 'earliest', 'latest'):
-                for variant, kw in (('nn', {}), ('fn', {'clock_forward': FWD_GIVEN}), ('nb', {'clock_backward': BWD_GIVEN}),
-                                    ('fb', {'clock_forward': FWD_GIVEN, 'clock_backward': BWD_GIVEN})):
+                variants = [('nn', {}), ('fn', {'clock_forward': FWD_GIVEN}), ('nb', {'clock_backward': BWD_GIVEN}),
+                            ('fb', {'clock_forward': FWD_GIVEN, 'clock_backward': BWD_GIVEN})]
+                # both policies given as the DEFAULT literals: for every other probe this call comes first - a later call
+                # without policies must still be refused when the time is affected (nothing may be remembered)
+                dd = ('dd', {'clock_forward': 'after', 'clock_backward': 'earlier'})
+                variants = [dd] + variants if (tod // 10**9) % 2 == 0 else variants + [dd]
+                for variant, kw in variants:
                     try:
                         if kind == 'time':
                             o = TriggerBuilder.time(t, **kw)
